@@ -201,6 +201,13 @@ slot_of_pipeid(uint32_t id)
 	return 0;
 }
 
+static uint32_t
+hdrword(uint32_t w)
+{
+	int s = slot_of_pipeid(w);
+	return s > 0 ? (uint32_t) s : w;
+}
+
 // newly completed user operations, in op order:  [{"op":k,"rv":"ok","m":tag,...}]
 static int auto_run, done_final;
 static void
@@ -230,7 +237,7 @@ done_json(void)
 				if (raw_mode) {
 					o(",\"hdr\":[");
 					for (int k = 0; k < op->nhdr; k++) {
-						o("%s%u", k ? "," : "", op->hdr[k]);
+						o("%s%u", k ? "," : "", hdrword(op->hdr[k]));
 					}
 					o("]");
 				}
@@ -596,7 +603,7 @@ main(int argc, char **argv)
 					char *h = strstr(line, " h");
 					m       = mk_msg((uint32_t) strtoul(a3, NULL, 0));
 					while (h != NULL) {
-						nng_msg_header_append_u32(m, (uint32_t) strtoul(h + 2, NULL, 0));
+						nng_msg_header_append_u32(m, h[2] == 'p' ? vt_pipe_id(atoi(h + 3)) : (uint32_t) strtoul(h + 2, NULL, 0));
 						h = strstr(h + 2, " h");
 					}
 					rv = c > 0 ? nng_ctx_sendmsg(ctxs[c], m, NNG_FLAG_NONBLOCK) : nng_sendmsg(sut, m, NNG_FLAG_NONBLOCK);
@@ -615,7 +622,7 @@ main(int argc, char **argv)
 							size_t hl = nng_msg_header_len(m);
 							o(",\"hdr\":[");
 							for (size_t i = 0; i + 4 <= hl; i += 4) {
-								o("%s%u", i ? "," : "", get32((uint8_t *) nng_msg_header(m) + i));
+								o("%s%u", i ? "," : "", hdrword(get32((uint8_t *) nng_msg_header(m) + i)));
 							}
 							o("]");
 						}
@@ -634,7 +641,7 @@ main(int argc, char **argv)
 					char    *h = strstr(line, " h");
 					op->tag    = (uint32_t) strtoul(a3, NULL, 0);
 					while (h != NULL) {
-						nng_msg_header_append_u32(m, (uint32_t) strtoul(h + 2, NULL, 0));
+						nng_msg_header_append_u32(m, h[2] == 'p' ? vt_pipe_id(atoi(h + 3)) : (uint32_t) strtoul(h + 2, NULL, 0));
 						h = strstr(h + 2, " h");
 					}
 					nng_aio_set_msg(op->aio, m);
